@@ -28,7 +28,7 @@ func init() {
 		Technique:   "codec agreement by backward value provenance over SSA (writer relation wire-field <- object-fields vs reader relation object-field <- wire-fields) for the five state codecs; who-may-write + increment-shape check of the id counters",
 		Explanation: "Structural necessary conditions for 'persisted state reloads to the same state; IDs never reused': (R1) for State, Task, Change, Notice and Warning the relation {(object field, wire field)} extracted from MarshalJSON equals the one extracted from UnmarshalJSON (through the flatten/unflatten, String/ParseDuration and pointer adapters): nothing is saved that is not restored into the same field, and vice versa; (R2) every field the property lists (statuses, waited status, wait/halt edges, lanes, data, log, at-time, change link, task ids, ready/spawn times, notice repeat/expire/last-repeated, the id counters and the last notice timestamp) is in that relation; (R3) the four id counters are written only as `x = x + 1` in their allocator and from the wire struct on load, and the id handed out is formatted from the just-incremented counter; (R4) the only non-identity adapter on load, waitedStatus Default -> Done, is present exactly in that form.",
 		NotDecided:  "the JSON library's value-level round trip (time zones, number precision); contents of custom data.",
-		Run:         func(c *Ctx) { runC05(c); runC05x(c) },
+		Run:         func(c *Ctx) { runC05(c); runC05x(c); runC05z(c) },
 	})
 }
 
